@@ -9,6 +9,7 @@ require (
 	github.com/ozontech/file.d v0.0.0
 	github.com/ozontech/insane-json v0.1.9
 	github.com/prometheus/client_golang v1.16.0
+	github.com/tidwall/gjson v1.18.0
 	github.com/twmb/franz-go v1.20.7
 	go.uber.org/zap v1.27.0
 	k8s.io/api v0.34.2
@@ -71,7 +72,6 @@ require (
 	github.com/segmentio/asm v1.2.0 // indirect
 	github.com/spf13/pflag v1.0.6 // indirect
 	github.com/stretchr/testify v1.10.0 // indirect
-	github.com/tidwall/gjson v1.18.0 // indirect
 	github.com/tidwall/match v1.1.1 // indirect
 	github.com/tidwall/pretty v1.2.1 // indirect
 	github.com/timtadh/data-structures v0.6.1 // indirect
